@@ -103,6 +103,15 @@ def run(bdir, tier, known_ids, deadline):
     for lg in longs:
         for t in terms:
             files += [lg + t, lg, b'ok@test.com' + t + lg + t + b'#c' + t, lg + t + lg + t]
+    # every line length around each power of two (a reader that grows its buffer by doubling has its corner cases exactly there),
+    # always followed by a second line that must get its own verdict
+    for centre in (128, 256, 512, 1024, 2048, 4096):
+        for n in range(centre - 6, centre + 7):
+            for t in terms:
+                for lead in (b'a', 'ж'.encode()):
+                    body = (lead * ((n - 9) // len(lead)) + b'a' * ((n - 9) % len(lead)) + b'@test.com')
+                    files.append(body + t + b'ok@test.com' + t)
+                    files.append(body + t + b'#c' + t + b'bad..x@test.com')
     seen = set(); uniq = []
     for f in files:
         if f not in seen: seen.add(f); uniq.append(f)
